@@ -40,7 +40,8 @@ def case(draw, tier):
     n = draw(gen.sizes(0, 5 if tier == "quick" else 9))
     op = draw(st.sampled_from(OPS))
     c = {"op": op, "nf": nf, "n": n, "policy": draw(st.sampled_from([False, True, "inline"])), "via_config": draw(st.booleans()),
-         "exc": draw(st.sampled_from(sorted(EXC))), "errorvalue": draw(st.sampled_from([None, "ERR", 0]))}
+         "exc": draw(st.sampled_from(sorted(EXC))), "errorvalue": draw(st.sampled_from([None, "ERR", 0])),
+         "exc_cells": draw(st.booleans())}
     cells = [(r, f) for r in range(n) for f in range(nf)]
     if op in ("convert", "convert-multi", "convertall", "fieldmap"):
         c["failing"] = [list(x) for x in draw(st.lists(st.sampled_from(cells), unique=True, max_size=len(cells)))] if cells else []
@@ -67,6 +68,13 @@ def check(case, ctx):
     errorvalue = case["errorvalue"]
     hdr = ["f%d" % i for i in range(nf)]
     tbl = [hdr] + [[_tok(r, f) for f in range(nf)] for r in range(n)]
+    # for fieldmap some source cells of fields that are only carried over hold exception OBJECTS (as a view run with
+    # failonerror='inline' upstream would deliver them): they are values and must come through under every policy
+    carried = {}
+    if case["op"] == "fieldmap" and case.get("exc_cells"):
+        for r in range(n):
+            if r % 2 == 0:
+                carried[r] = ValueError("carried-%d" % r)
     kw = {}
     if not case["via_config"]:
         kw["failonerror"] = policy
@@ -94,9 +102,12 @@ def check(case, ctx):
                 view = etl.convertall(tbl, conv, errorvalue=errorvalue, **kw)
             else:
                 m = collections.OrderedDict((hdr[f], (hdr[f], conv)) for f in fields)
+                if carried:
+                    m["carried"] = "xc"
+                    tbl = [hdr + ["xc"]] + [row + [carried.get(i, "plain")] for i, row in enumerate(tbl[1:])]
                 view = etl.fieldmap(tbl, m, errorvalue=errorvalue, **kw)
             outfields = fields if op == "fieldmap" else list(range(nf))
-            exp_hdr = tuple(hdr[f] for f in outfields)
+            exp_hdr = tuple(hdr[f] for f in outfields) + (("carried",) if carried else ())
             exp_rows = []   # list of ('row', cells) or ('raise', token)
             for r in range(n):
                 cells = []
@@ -115,6 +126,8 @@ def check(case, ctx):
                 if stop:
                     exp_rows.append(("raise", stop))
                     break
+                if carried:
+                    cells.append(("SAME", carried.get(r, "plain")))
                 exp_rows.append(("row", cells))
         elif op == "rowmap":
             failing = set(case["failing"])
@@ -195,7 +208,10 @@ def check(case, ctx):
             if len(row) != len(payload):
                 return Fail("%s/%s/row-shape" % (op, policy), "output row %d is %r, expected %r" % (i, row, payload))
             for cell, (ck, cv) in zip(row, payload):
-                if ck == "EXC":
+                if ck == "SAME":
+                    if cell is not cv and cell != cv:
+                        return Fail("%s/%s/carried-cell" % (op, policy), "a carried-over cell %r came out as %r (row %d)" % (cv, cell, i))
+                elif ck == "EXC":
                     if not _same_exc(cell, cls, cv):
                         return Fail("%s/%s/inline-cell" % (op, policy), "cell %r where %s(%r) was expected (row %d)" % (cell, cls.__name__, cv, i))
                 elif isinstance(cell, BaseException) or cell != cv or type(cell) is not type(cv):
